@@ -72,6 +72,25 @@ def no_member_after_handler(run, ol, tag):
                   % sorted({q.render(ol, n) for n in late})[:4], 'nothing of *this is touched after the handler has been invoked')
 
 
+def cancel_stops_timer_rule(run):
+    """cancel() leaves nothing to wait for: with the queue emptied the internal timer is cancelled on every path - an armed
+    timer nobody waits on keeps simulation::run() from returning until its (stale) expiry, and is a queue entry that a later
+    assignment to the idle resolver corrupts."""
+    fx = run.fx
+    run.clause('cancel() leaves no timer armed behind the emptied queue')
+    n = 0
+    for cn in fx.fn(R + '::cancel'):
+        if cn.cfg is None:
+            continue
+        n += 1
+        run.touch(cn)
+        tc = [c for c in cn.calls() if (q.callee_name(c) or '').endswith('high_resolution_timer::cancel') and is_node(c.get('obj')) and q.render(cn, c['obj']).replace('this->', '') == 'm_timer']
+        run.check(bool(tc) and q.on_all_paths(cn, tc), 'R4', 'cancel-stops-timer', cn.norm, cn.loc(),
+                  'cancel() empties the queue but leaves m_timer armed for the old front entry: run() does not return before that stale expiry (the clock jumps to it), and the timer stays in the simulation\'s queue although the resolver is idle', 'm_timer.cancel() on every path')
+    if n < 1:
+        run.broke('basic_resolver::cancel not found')
+
+
 def cancel_aborts_rule(run, cn, tag, rule='R6'):
     """cancel() completes every queued lookup with operation_aborted, unconditionally (shared with C04)."""
     fx = run.fx
@@ -343,6 +362,7 @@ def check(run):
         if ed:
             run.check(q.render(ol, q.strip_casts(ed[0]['init'])).replace('!', '') in ('m_queue.empty()', 'm_queue.size()') and all(q.precedes(ol, er[0], n) for n in ol.all_nodes() if n['k'] == 'decl' and any(v is ed[0] for v in n['vars'])) if er else False,
                       'R10', 'resolver-empty-flag', '%s<%s>' % (ol.norm, tag), ol.loc(), '`empty` is not m_queue.empty() sampled after the pop', '`empty` sampled after the pop')
+    cancel_stops_timer_rule(run)
     for cn in fx.fn(R + '::cancel'):
         run.touch(cn)
         tag = 'udp' if 'udp' in cn.name else 'tcp'
